@@ -290,6 +290,14 @@ fn walk_cred(c: &Credential<Object>) {
   let _ = JwtCredentialValidatorUtils::check_expires_on_or_after(c, Timestamp::from_unix(0).unwrap());
   let _ = JwtCredentialValidatorUtils::check_issued_on_or_before(c, Timestamp::from_unix(0).unwrap());
   let _ = JwtCredentialValidatorUtils::extract_issuer::<CoreDID, _>(c);
+  st("subject_holder");
+  for h in ["did:ex:s2", "did:ex:other", "https://a.example"] {
+    if let Ok(h) = Url::parse(h) {
+      for rel in [identity_credential::validator::SubjectHolderRelationship::AlwaysSubject, identity_credential::validator::SubjectHolderRelationship::SubjectOnNonTransferable, identity_credential::validator::SubjectHolderRelationship::Any] {
+        let _ = JwtCredentialValidatorUtils::check_subject_holder_relationship(c, &h, rel);
+      }
+    }
+  }
   st("check_status");
   let docs = [issuer_doc()];
   for sc in [identity_credential::validator::StatusCheck::Strict, identity_credential::validator::StatusCheck::SkipUnsupported] {
@@ -1429,7 +1437,7 @@ fn seeds() -> Vec<Seeds> {
     Seeds { name: "service", json: true, seeds: vec![format!(r#"{{"id":"{d}#ld","type":"LinkedDomains","serviceEndpoint":"https://a.example"}}"#, d = d), format!(r#"{{"id":"{d}#ld","type":"LinkedDomains","serviceEndpoint":{{"origins":["https://a.example","https://b.example"]}}}}"#, d = d), format!(r#"{{"id":"{d}#ld","type":["LinkedDomains"],"serviceEndpoint":{{"x":["https://a.example"],"origins":[]}}}}"#, d = d), format!(r#"{{"id":"{d}#lv","type":"LinkedVerifiablePresentation","serviceEndpoint":"https://a.example/vp.jwt"}}"#, d = d), format!(r#"{{"id":"{d}#lv","type":"LinkedVerifiablePresentation","serviceEndpoint":["https://a.example/vp.jwt","https://b.example/vp.jwt"]}}"#, d = d)] },
     Seeds { name: "dlconfig", json: true, seeds: vec![format!(r#"{{"@context":"https://identity.foundation/.well-known/did-configuration/v1","linked_dids":["{}","a.b.c"]}}"#, dl_jwt)] },
     Seeds { name: "jwk", json: true, seeds: vec![jwk_k1.into(), jwk_ec.into(), r#"{"kty":"EC","crv":"P-256","x":"AQAB","y":"AQAB"}"#.into(), r#"{"kty":"EC","crv":"secp256k1","x":"","y":""}"#.into(), r#"{"kty":"OKP","crv":"Ed25519","x":"AQAB"}"#.into()] },
-    Seeds { name: "cred", json: true, seeds: vec![cred.clone(), cred_sl.clone(), slc.clone()] },
+    Seeds { name: "cred", json: true, seeds: vec![cred.clone(), cred_sl.clone(), slc.clone(), cred_sl.replace(r#""credentialSubject":{"id":"did:ex:s2"}"#, r#""credentialSubject":[]"#), cred_sl.replace(r#""credentialSubject":{"id":"did:ex:s2"}"#, r#""credentialSubject":[{"id":"did:ex:s2"},{"x":1}],"nonTransferable":true"#), cred_sl.replace(r#""credentialSubject":{"id":"did:ex:s2"}"#, r#""credentialSubject":[{"id":"did:ex:s2"}]"#)] },
     Seeds { name: "pres", json: true, seeds: vec![pres.clone()] },
     Seeds { name: "status", json: true, seeds: vec![format!(r#"{{"id":"{d}?index=5#rev","type":"RevocationBitmap2022","revocationBitmapIndex":"5"}}"#, d = d), r##"{"id":"https://example.com/credentials/status#94567","type":"StatusList2021Entry","statusPurpose":"revocation","statusListIndex":"94567","statusListCredential":"https://example.com/credentials/status"}"##.into()] },
     Seeds { name: "slentry", json: true, seeds: vec![r##"{"id":"https://example.com/credentials/status#94567","type":"StatusList2021Entry","statusPurpose":"suspension","statusListIndex":"94567","statusListCredential":"https://example.com/credentials/status"}"##.into()] },
@@ -1670,6 +1678,113 @@ pub fn gen(thorough: bool, seed: u64, out: &mut impl Write) {
     for l in &lists {
       writeln!(out, "C05 linkednew {}", hex(format!("L{}", l).as_bytes())).unwrap();
       writeln!(out, "C05 linkednew {}", hex(format!("V{}", l).as_bytes())).unwrap();
+    }
+  }
+  // (f) integrity metadata: digests of every length 0..=6 in the standard and URL alphabets, unpadded, correctly padded, over- and
+  // under-padded, with and without options (the parser and the accessors must agree on what a digest is)
+  {
+    const STD: &[u8] = b"ABCDEFGHIJKLMNOPQRSTUVWXYZabcdefghijklmnopqrstuvwxyz0123456789+/";
+    for n in 0..=6usize {
+      let bytes: Vec<u8> = (0..n).map(|i| 0xfbu8.wrapping_add((i * 37) as u8)).collect();
+      let mut enc = String::new();
+      for ch in bytes.chunks(3) {
+        let v = (ch[0] as u32) << 16 | (*ch.get(1).unwrap_or(&0) as u32) << 8 | *ch.get(2).unwrap_or(&0) as u32;
+        enc.push(STD[(v >> 18) as usize & 63] as char);
+        enc.push(STD[(v >> 12) as usize & 63] as char);
+        if ch.len() > 1 {
+          enc.push(STD[(v >> 6) as usize & 63] as char);
+        }
+        if ch.len() > 2 {
+          enc.push(STD[v as usize & 63] as char);
+        }
+      }
+      let pad = (4 - enc.len() % 4) % 4;
+      for p in 0..=3usize {
+        for alg in ["sha256", "sha512", "x", ""] {
+          for opt in ["", "-opt", "-", "-a-b"] {
+            let d = format!("{}{}", enc, "=".repeat(p));
+            emit(out, "integrity", format!("{}-{}{}", alg, d, opt).as_bytes());
+            emit(out, "integrityjson", serde_json::to_string(&format!("{}-{}{}", alg, d, opt)).unwrap().as_bytes());
+            if p == pad {
+              emit(out, "integrity", format!("{}-{}{}", alg, d.replace('+', "-").replace('/', "_"), opt).as_bytes());
+            }
+          }
+        }
+      }
+    }
+    emit(out, "integrity", b"sha256-47DEQpj8HBSa+/TImW+5JCeuQeRkm5NMpJWZG3hSuFU=");
+    emit(out, "integrity", b"sha512-z4PhNX7vuL3xVChQ1m2AB9Yg5AULVxXcg/SpIdNs6c5H0NE8XYXysP+DGNKHfuwvY7kxvUdBeoGlODJ6+SfaPg==");
+  }
+  // (g) revocation services whose payload is a well-framed roaring serialisation with broken container invariants (unsorted /
+  // repeated array values, cardinalities that disagree with the data, offsets out of range, run containers that overlap)
+  {
+    use std::io::Write as _;
+    let frame = |roaring: &[u8]| -> String {
+      let mut z = flate2::write::ZlibEncoder::new(Vec::new(), flate2::Compression::default());
+      z.write_all(roaring).unwrap();
+      format!(r#"{{"id":"did:ex:i1#rev","type":"RevocationBitmap2022","serviceEndpoint":"data:application/octet-stream;base64,{}"}}"#, b64(&z.finish().unwrap()))
+    };
+    let u16s = |v: &[u16]| -> Vec<u8> { v.iter().flat_map(|x| x.to_le_bytes()).collect() };
+    // array container of key 0: cookie 12346, one container, (key, cardinality-1), offset 16, values
+    let array = |card_minus_1: u16, offset: u32, vals: &[u16]| -> Vec<u8> {
+      let mut b = vec![0x3a, 0x30, 0, 0, 1, 0, 0, 0];
+      b.extend(u16s(&[0, card_minus_1]));
+      b.extend(offset.to_le_bytes());
+      b.extend(u16s(vals));
+      b
+    };
+    let mut payloads: Vec<Vec<u8>> = vec![
+      array(1, 16, &[3, 5]),
+      array(1, 16, &[5, 3]),
+      array(1, 16, &[3, 3]),
+      array(2, 16, &[3, 5]),
+      array(0, 16, &[3, 5]),
+      array(1, 15, &[3, 5]),
+      array(1, 400, &[3, 5]),
+      array(1, 16, &[3]),
+      array(65535, 16, &[3, 5]),
+      array(2, 16, &[9, 8, 7]),
+      array(3, 16, &[1, 2, 2, 1]),
+    ];
+    // run container: cookie 12347 | (n-1) << 16, run bitset, (key, card-1), then runs (start, length-1)
+    let run = |card_minus_1: u16, runs: &[(u16, u16)]| -> Vec<u8> {
+      let mut b = vec![0x3b, 0x30, 0, 0, 1];
+      b.extend(u16s(&[0, card_minus_1]));
+      b.extend(u16s(&[runs.len() as u16]));
+      for (s, l) in runs {
+        b.extend(u16s(&[*s, *l]));
+      }
+      b
+    };
+    payloads.extend([run(3, &[(1, 1), (5, 1)]), run(3, &[(5, 1), (1, 1)]), run(3, &[(1, 5), (3, 1)]), run(0, &[(65535, 5)]), run(3, &[(1, 1)]), run(9, &[])]);
+    // bitmap container (cardinality 4097) with a body of another popcount / length
+    for (card, ones, len) in [(4096u16, 4097usize, 8192usize), (4096, 4096, 8192), (4096, 0, 8192), (4096, 4097, 8191), (65535, 65536, 8192), (65535, 1, 8192)] {
+      let mut b = vec![0x3a, 0x30, 0, 0, 1, 0, 0, 0];
+      b.extend(u16s(&[0, card]));
+      b.extend(16u32.to_le_bytes());
+      let mut body = vec![0u8; len];
+      for i in 0..ones.min(len * 8) {
+        body[i / 8] |= 1 << (i % 8);
+      }
+      b.extend(body);
+      payloads.push(b);
+    }
+    // two containers with keys out of order / equal
+    for keys in [[1u16, 0], [0, 0], [0, 1]] {
+      let mut b = vec![0x3a, 0x30, 0, 0, 2, 0, 0, 0];
+      b.extend(u16s(&[keys[0], 0, keys[1], 0]));
+      b.extend(24u32.to_le_bytes());
+      b.extend(26u32.to_le_bytes());
+      b.extend(u16s(&[7, 9]));
+      payloads.push(b);
+    }
+    let n = payloads.len();
+    for i in 0..(if thorough { 1500 } else { 150 }) {
+      let base = payloads[i % n].clone();
+      payloads.push(mutate(&mut r, &base));
+    }
+    for p in &payloads {
+      emit(out, "service", frame(p).as_bytes());
     }
   }
   // random DID-ish strings from a grammar-aware generator
